@@ -524,6 +524,13 @@ def check(model, rep, tier):
   from sa import rules_trav
   rep.rule('OPT-FRAME', 'the state stack that decides "top level" is balanced', floor=1)
   rules_trav.state_pairing(model, rep, 'OPT-FRAME', [FUNCS])
+  for fi_ in model.module(FUNCS).all_functions():
+    for w_ in core.walk_no_nested(fi_.node):
+      if isinstance(w_, ast.With) and any(
+          core.norm(it_.context_expr).startswith('self.state[') for it_ in w_.items):
+        # entered by `with`: left on every path by construction
+        rep.hold('OPT-FRAME', '%s:with(%s)' % (fi_.site, core.norm(
+            w_.items[0].context_expr)), {'form': 'with'})
   fso = model.func(FUNCS, 'FunctionTransformer._function_scope_options')
   fp_ = fso.params()[0]
 
